@@ -260,7 +260,17 @@ def run(prop, tier):
     seen = set()
     shown = 0
     replay_paths = []
+    # report round-robin over the sub-checks, so that every failing sub-check is represented among
+    # the first few violations that are confirmed and printed
+    by_sub = {}
     for fl in new:
+        by_sub.setdefault(fl['sub'], []).append(fl)
+    ordered = []
+    while any(by_sub.values()):
+        for k in list(by_sub):
+            if by_sub[k]:
+                ordered.append(by_sub[k].pop(0))
+    for fl in ordered:
         dg = _digest(fl)
         if dg in seen:
             continue
@@ -270,17 +280,30 @@ def run(prop, tier):
         path = write_replay(prop, tier, fl)
         replay_paths.append((path, fl))
         shown += 1
-    confirm = replay_paths[:2]
+    # R3: a verdict is reported only if it reproduces in a fresh process.  Violations are confirmed
+    # in order until two have reproduced (at most 10 attempts); ones that do not reproduce depend on
+    # what the worker had evaluated before (itself a purity symptom, but not a replayable finding)
+    # and are dropped from the report.  If nothing reproduces the run is a harness error (exit 2).
     nonrepro = False
-    for path, fl in confirm:
+    confirmed = 0
+    kept = []
+    for n_try, (path, fl) in enumerate(replay_paths):
+        if confirmed >= 2 or n_try >= 10:
+            kept.append((path, fl))
+            continue
         env = dict(os.environ)
         env.pop('HXVERIF_SNAPSHOT', None)
         rc = subprocess.run([sys.executable, '-m', 'hxverif.run', prop, '--replay', path],
                             cwd=HERE, env=env, stdout=subprocess.PIPE, stderr=subprocess.STDOUT)
-        if rc.returncode != 1:
-            nonrepro = True
-            harness.append('verdict did not reproduce in a fresh process (rc=%d): %s\n%s' % (
-                rc.returncode, path, rc.stdout.decode(errors='replace')[-800:]))
+        if rc.returncode == 1:
+            confirmed += 1
+            kept.append((path, fl))
+        else:
+            harness.append('verdict did not reproduce in a fresh process (rc=%d), dropped: %s %s' % (
+                rc.returncode, path, (fl['msg'] or '')[:200]))
+    if replay_paths and not confirmed:
+        nonrepro = True
+    replay_paths = kept
 
     wall = time.time() - t0
     cov = _coverage(mod, subs, agg, per_sub, tier, jobs)
